@@ -7,6 +7,7 @@ can-continue, choices, globals, the current and the alive flows and the structur
 Profiles (one per property that uses this oracle):
   plain   cont, choose (valid and invalid index), set_var, choose_path             -> C01 / C09
   save    plain + save / load into slots (also a slot never saved)                  -> C02
+  saveflows  save + flows: saves with flows waiting in the background, the flows looked at after the load   -> C02
   flows   plain + switch_flow / switch_to_default / remove_flow                      -> C10
   reset   plain + reset_state                                                       -> C17
   refuse  plain with mostly invalid arguments (unknown variable, path, flow, slot)   -> C09
@@ -32,9 +33,9 @@ import time
 import gen_ast
 import lib
 
-SPECIAL = {"save": {"save", "load"}, "flows": {"switch_flow", "switch_default", "remove_flow"}, "reset": {"reset"},
+SPECIAL = {"save": {"save", "load"}, "saveflows": {"save", "load"}, "flows": {"switch_flow", "switch_default", "remove_flow"}, "reset": {"reset"},
            "eval": {"eval_fn"}, "observe": {"observe", "remove_observer"}, "slices": {"cont_async"}, "refuse": None, "plain": None, "externs": None, "mixed": None, "exhaustive": None, "errors": None}
-OWNER = {"save": "C02", "flows": "C10", "reset": "C17", "refuse": "C09", "plain": "C01", "eval": "C16", "observe": "C11",
+OWNER = {"save": "C02", "saveflows": "C02", "flows": "C10", "reset": "C17", "refuse": "C09", "plain": "C01", "eval": "C16", "observe": "C11",
          "slices": "C08", "externs": "C12", "mixed": "C09", "exhaustive": "C09", "errors": "C13"}
 
 
@@ -63,6 +64,9 @@ def history(rnd, prog, profile, length):
         weights.update(save=2, load=2)
     if profile == "flows":
         weights.update(switch_flow=2.5, switch_default=1, remove_flow=1)
+    if profile == "saveflows":
+        # saves taken while other flows wait in the background, loads followed by a look at those flows
+        weights.update(save=2.5, load=2.5, switch_flow=2.5, switch_default=1, remove_flow=0.4)
     if profile == "reset":
         weights.update(reset=1.2)
     funcs = [(k, len(v["params"])) for k, v in prog["prog"]["knots"].items() if v["kind"] == "function"]
@@ -96,6 +100,21 @@ def history(rnd, prog, profile, length):
             ops += [{"op": "save", "slot": slot}] + ([{"op": "cont"}] if rnd.random() < 0.5 else []) + [{"op": "load", "slot": slot}]
             ops += [{"op": "turn"}, {"op": "choose", "i": rnd.randrange(1 << 16), "mod": True}]
         return ops
+    if profile == "saveflows" and rnd.random() < 0.6 and knots:
+        # a flow that has printed something waits in the background while the host saves; after the load the host looks
+        # at that flow BEFORE continuing it (its text, tags and choices are those it was left with)
+        for _ in range(max(2, length // 5)):
+            f = rnd.choice(["f1", "f2"])
+            ops += [{"op": "cont"}] * rnd.choice([1, 2])
+            ops += [{"op": "switch_flow", "name": f}, {"op": "choose_path", "path": rnd.choice(knots), "reset": True}]
+            ops += [{"op": "cont"}] * rnd.choice([1, 2, 3])
+            ops += [{"op": rnd.choice(["switch_default", "switch_default", "nop"])}]
+            slot = rnd.choice(["a", "b"])
+            ops += [{"op": "save", "slot": slot}]
+            ops += rnd.choice([[], [{"op": "cont"}], [{"op": "switch_flow", "name": f}, {"op": "cont"}, {"op": "switch_default"}]])
+            ops += [{"op": "load", "slot": slot}, {"op": "switch_flow", "name": f}, {"op": "cont"}, {"op": "switch_default"}]
+            ops += [{"op": "turn"}, {"op": "choose", "i": rnd.randrange(1 << 16), "mod": True}]
+        return [o for o in ops if o["op"] != "nop"]
     for step in range(length):
         k = rnd.choices(names, [weights[n] for n in names])[0]
         if profile == "errors" and step == length // 2 and rnd.random() < 0.3:
@@ -395,7 +414,7 @@ def check(prop, profile, tier, seed):
     if os.path.exists(path):
         ev = json.load(open(path))
         cov = ev.setdefault("coverage", {})
-        cov["host_model"] = dict(oracle="spec/InkHost.tla via spec/InkHostOps.tla", profile=profile, histories=stats["histories"],
+        cov["host_model" if "host_model" not in cov or cov["host_model"].get("profile") == profile else "host_model_" + profile] = dict(oracle="spec/InkHost.tla via spec/InkHostOps.tla", profile=profile, histories=stats["histories"],
                                  calls=stats["calls"], refused_calls=stats["refused_calls"], calls_of_the_profile=stats["special_calls"],
                                  states=stats["states"], skipped=stats["skipped"], messages_to_handler=stats["messages_to_handler"],
                                  failed_continues=stats["failed_continues"], calls_with_pending_warnings=stats["calls_with_pending_warnings"], sample=stats["sample"], violations=nviol)
